@@ -319,10 +319,10 @@ def exhaustive_cases(quick):
     cases = []
     for kind in ("LR", "LO"):
         for dlm in (CRLF, LFd):
-            cases.append(({"kind": kind, "max": 2, "dlm": dlm, "n": 0}, [13, 10, x], L))
+            cases.append(({"kind": kind, "max": 2, "dlm": dlm, "n": 0}, [13, 10, x], L if dlm == CRLF or quick else L - 1))
     cases.append(({"kind": "LR", "max": 2, "dlm": CRLF, "n": 0}, [13, 10, x, 80], L - 1))
     cases.append(({"kind": "LO", "max": 1, "dlm": CRLF, "n": 0}, [13, 10, x, 81], L - 1))
-    cases.append(({"kind": "NS", "max": 2, "dlm": [], "n": 0}, [0x30, 0x31, 0x33, 0x3a, 0x2c, x], L - 1))
+    cases.append(({"kind": "NS", "max": 2, "dlm": [], "n": 0}, [0x30, 0x31, 0x33, 0x3a, 0x2c, x], L - 1 if quick else L - 2))
     cases.append(({"kind": "IN", "max": 2, "dlm": [], "n": 1}, [0, 1, 2, 3, x], L - 1))
     cases.append(({"kind": "IN", "max": 2, "dlm": [], "n": 2}, [0, 2, 3, x], L - 1 if quick else L - 2))
     if not quick:
@@ -365,7 +365,7 @@ def build_traces(ctx):
                     plan = [rng.randint(0, 1) for _ in range(3)] if 80 in alpha else []
                     traces.append(run_stream(cfg, list(el), cuts, plan, tag="alpha"))
     ctx.extra["exhaustive"] = [dict(cfg=c, alphabet=a, maxlen=L) for c, a, L in exhaustive_cases(ctx.quick)]
-    for i in range(ctx.pick(900, 40000)):
+    for i in range(ctx.pick(900, 20000)):
         cfg = cfgs_small(rng)
         el, hot = gen_for(rng, cfg)
         if not el:
@@ -537,7 +537,10 @@ def run(ctx):
     ctx.extra["rejected_traces"] = len(rej)
     bad = {x.idx for x in rej}
     good = [t for i, t in enumerate(traces) if i not in bad and t["tag"] in ("small", "send") and t["cfg"]["max"] < 100]
-    ctx.selftest_rejects("FramingTrace", good[-600:], sel_mutate, n=24)
+    if good or not rej:
+        ctx.selftest_rejects("FramingTrace", good[-600:], sel_mutate, n=24)
+    else:   # every fully constrained execution was rejected (reported above): nothing left to corrupt
+        ctx.log("binding self-test skipped: no accepted execution to corrupt")
 
 
 def replay(ctx, obj):
